@@ -74,7 +74,7 @@ NOISES = {
     "eff_noise": dict(eff_noise_rates=(0.4,), eff_noise_opers=([[0.0, 1.0], [0.0, 0.0]],)),
     "relax+deph": dict(relaxation_rate=0.2, dephasing_rate=0.2),
 }
-PROGS = ["rabi", "idle", "detuned", "two-atoms", "digital", "both-bases", "xy", "zero-drive"]
+PROGS = ["rabi", "idle", "detuned", "two-atoms", "digital", "both-bases", "xy", "zero-drive", "lead-idle", "long-idle"]
 EVALS = ["Full", "default", "list", "per-observable"]
 
 
@@ -111,6 +111,12 @@ def build_prog(prog):
     if prog == "idle":
         seq.add(Pulse.ConstantPulse(60, 5.0, 0.0, 0.0), "g")
         seq.delay(150, "g")
+        return seq
+    if prog in ("lead-idle", "long-idle"):  # an idle period BEFORE (and after) a short pulse
+        d = 300 if prog == "lead-idle" else 3000
+        seq.delay(d, "g")
+        seq.add(Pulse.ConstantPulse(20, 40.0, 0.0, 0.0), "g")
+        seq.delay(d, "g")
         return seq
     if prog == "detuned":
         seq.add(Pulse.ConstantPulse(150, 3.0, 4.0, 1.0), "g")
@@ -225,7 +231,48 @@ def conv_cases(tier):
             for tup in itertools.product(range(len(states)), repeat=n):
                 for mb in ([meas] if meas else ["ground-rydberg", "digital"]):
                     out.append(("conv", bname, tup, mb))
+        # superpositions / mixtures populating SEVERAL basis states that map to the same bitstring
+        for n in (1, 2):
+            for mb in ([meas] if meas else ["ground-rydberg", "digital"]):
+                for kind in ("uniform", "weighted"):
+                    out.append(("convsup", bname, n, mb, kind))
     return out
+
+
+def check_convsup(bname, n, mb, kind):
+    import qutip
+    from pulser_simulation.qutip_result import QutipResult
+    from pulser_simulation.qutip_state import QutipState
+
+    states = BASES[bname][0]
+    one = {"ground-rydberg": "r", "digital": "h", "XY": "d"}[mb]
+    dim = len(states)
+    tups = list(itertools.product(range(dim), repeat=n))
+    w = np.array([1.0 + (k % 3 if kind == "weighted" else 0) for k in range(len(tups))])
+    w = w / w.sum()
+    exp = {}
+    for tup, p in zip(tups, w):
+        b = "".join("1" if states[i] == one else "0" for i in tup)
+        exp[b] = exp.get(b, 0.0) + float(p)
+    ket = sum(math.sqrt(p) * qutip.tensor([qutip.basis(dim, i) for i in tup]) for tup, p in zip(tups, w))
+    dm = sum(p * qutip.tensor([qutip.basis(dim, i) for i in tup]).proj() for tup, p in zip(tups, w))
+    out = []
+    for label, st in (("ket", ket), ("pure-dm", ket.proj()), ("mixed-dm", dm)):
+        try:
+            qr = QutipResult(tuple(f"q{i}" for i in range(n)), mb, st, bname != "all")
+            got = {k: float(v) for k, v in qr.sampling_dist.items() if v > 1e-12}
+            if set(got) != set(exp) or any(abs(got[k] - exp[k]) > 1e-9 for k in exp):
+                out.append((f"C11:bitstring-distribution:legacy:{bname}:{mb}:{label}", f"{kind} over all {dim}^{n} basis states -> {got}, documented {exp}"))
+        except Exception as e:
+            out.append((f"C11:bitstring-distribution-raises:legacy:{bname}:{type(e).__name__}", f"{label}: {e}"[:200]))
+        try:
+            bp = QutipState(st, eigenstates=states).bitstring_probabilities(one_state=one)
+            got = {k: float(v) for k, v in bp.items() if v > 1e-12}
+            if set(got) != set(exp) or any(abs(got[k] - exp[k]) > 1e-9 for k in exp):
+                out.append((f"C11:bitstring-distribution:v2:{bname}:{mb}:{label}", f"{kind} over all {dim}^{n} basis states -> {got}, documented {exp}"))
+        except Exception as e:
+            out.append((f"C11:bitstring-distribution-raises:v2:{bname}:{type(e).__name__}", f"{label}: {e}"[:200]))
+    return out + [("@conv", "")]
 
 
 def check_conv(bname, tup, mb):
@@ -688,6 +735,8 @@ def worker(case):
             return check_phys(*case[1:])
         if k == "conv":
             return check_conv(*case[1:])
+        if k == "convsup":
+            return check_convsup(*case[1:])
         if k == "tape":
             return check_tape(*case[1:])
     return []
